@@ -215,9 +215,13 @@ class Run:
             return  # whatever an `except Exception` handler makes of the stop signal is not a finding
         if replay.get("kind") == "compile-failed" and getattr(self, "drv", None) is not None:
             files = (replay.get("input") or {}).get("files") or {}
+            main = (replay.get("input") or {}).get("main")
             try:
-                verdicts = [self.drv.batch([{"op": "text.check", "files": [{"name": n, "text": t}], "main": n}])[0] for n, t in files.items()
-                            if isinstance(t, str) and "\nimport " not in t]
+                if main in files:  # a program: all files, entry named
+                    verdicts = [self.drv.batch([{"op": "text.check", "files": [{"name": n, "text": t} for n, t in files.items()], "main": main}])[0]]
+                else:
+                    verdicts = [self.drv.batch([{"op": "text.check", "files": [{"name": n, "text": t}], "main": n}])[0] for n, t in files.items()
+                                if isinstance(t, str) and "\nimport " not in t]
             except Exception:  # noqa: BLE001
                 verdicts = []
             if verdicts and any("diag" in v for v in verdicts):
